@@ -27,6 +27,8 @@
 #include "syntax/SyntaxVisitor.h"
 #include "../common/infra/AccessSpecifiers.h"
 
+#include <unordered_set>
+
 namespace psy {
 namespace C {
 
@@ -44,6 +46,7 @@ PSY_INTERNAL:
 private:
     SemanticModel* semaModel_;
     bool inTydefDecltor_;
+    std::unordered_set<const TypedefDeclarationSymbol*> tydefDeclsUnderResolution_;
 
     const Type* resolve(const Type* ty);
 
